@@ -32,6 +32,20 @@ struct Interp {
         VT_CHECK(ctx, chdir(dir.c_str()) == 0, "harness", "chdir failed");
         setenv("VT_LONG", std::string(700, 'L').c_str(), 1);   // a value much longer than any line that mentions it
     }
+    // the case's own directory is removed again (best effort, two levels deep): a thorough run makes hundreds of thousands of them
+    static void rmtree2(const std::string &d, int depth) {
+        if (DIR *dp = opendir(d.c_str())) {
+            while (dirent *e = readdir(dp)) {
+                std::string n = e->d_name;
+                if (n == "." || n == "..") continue;
+                std::string p2 = d + "/" + n;
+                if (unlink(p2.c_str()) != 0 && depth < 3) rmtree2(p2, depth + 1);
+            }
+            closedir(dp);
+        }
+        rmdir(d.c_str());
+    }
+    void done_ok() { if (chdir("/") == 0 && !dir.empty()) rmtree2(dir, 0); ctx.ok(); }
     static std::string expand(const std::string &unit, long rep) { std::string s; if (rep < 0) rep = 0; s.reserve(unit.size() * (size_t)rep); for (long i = 0; i < rep; i++) s += unit; return s; }
 
     // ---------------------------------------------------------------- (1) arbitrary file bytes
@@ -108,7 +122,7 @@ struct Interp {
             ht_describe(b, sizeof b);
             ctx.fail("leak", std::string("heap-not-balanced; blocks allocated while parsing are still live after spifconf_free_subsystem(): ") + b);
         }
-        ctx.ok();
+        done_ok();
     }
     static bool strcasestr_bin(const std::string &h, const char *n) { size_t l = strlen(n); for (size_t i = 0; i + l <= h.size(); i++) if (!strncasecmp(h.data() + i, n, l)) return true; return false; }
 
@@ -157,7 +171,7 @@ struct Interp {
             if (path.find("::") != std::string::npos || (!path.empty() && path[0] == ':')) ctx.label("lookup:empty-component");
             if (!want.empty() || path.size() > 255) ctx.nontrivial();
         }
-        ctx.ok();
+        done_ok();
     }
 
     // ---------------------------------------------------------------- (3) temp files
@@ -209,7 +223,7 @@ struct Interp {
             unlink(rn.c_str());
             ctx.nontrivial();
         }
-        ctx.ok();
+        done_ok();
     }
     int count_files() { int n = 0; for (const char *d : {dir.c_str(), "/tmp"}) { DIR *dp = opendir(d); if (!dp) continue; while (auto e = readdir(dp)) if (strstr(e->d_name, "vtT")) n++; closedir(dp); } return n; }
 
@@ -276,7 +290,7 @@ struct Interp {
             }
         }
         if (cycles >= 2) ctx.nontrivial();
-        ctx.ok();
+        done_ok();
     }
 };
 
